@@ -236,9 +236,12 @@ def a_cases(tier):
         for c2 in F.chains(["F1", "S", "P1"] if q else ["F1", "S", "P1", "Fh", "P2"], 1, src_pull_based=True):
             for order in F.orders(["A", "P", "B"], all_orders=not q):
                 cs.append(F.viaP(c1, c2, end=e + 1, order=order))
-            cs.append(F.viaP2(c1, c2, c2, end=e))
-            cs.append(F.viaPdup(c1, c2, c2, end=e, order=("B", "P", "A")))
-            cs.append(F.viaPdup(c1, c2, [], end=e, order=("B", "P", "A")))
+            if not any(t[0] in "AM" for t in c1):
+                # an integration adapter on the link into a pull-based component that is read twice per update gets repeated / non-monotone
+                # requests (p0 >= p1): outside C12's premise, documented refusal of a zero-length interval - not generated
+                cs.append(F.viaP2(c1, c2, c2, end=e))
+                cs.append(F.viaPdup(c1, c2, c2, end=e, order=("B", "P", "A")))
+                cs.append(F.viaPdup(c1, c2, [], end=e, order=("B", "P", "A")))
             cs.append(F.viaPP(c1, c2, [], end=e))
             cs.append(F.viaPP(c1, [], c2, end=e, order=("B", "Q", "P", "A")))
         cs.append(F.diamondP(end=e, ch=c1))
